@@ -95,6 +95,21 @@ pub fn run(run: &Run) {
         }
         true
     });
+    enum_strings_padded(run, "enum_alpha_free_long_pads", &ALPHA_FREE, run.pick(3u32, 4u32), &|s, l| {
+        if check(run, s, l).is_err() {
+            shrink_report(run, Prof::Opaque, Op::Enforce, s);
+            return false;
+        }
+        true
+    });
+    let pl: Vec<&str> = PAYLOADS_SPACE.iter().chain(PAYLOADS_FREE.iter()).copied().collect();
+    stress(run, "alignment_and_runs", &pl, &|s, l| {
+        if check(run, s, l).is_err() {
+            shrink_report(run, Prof::Opaque, Op::Enforce, s);
+            return false;
+        }
+        true
+    });
     run.prop("random", run.pick(2_000_000, 60_000_000), freeform_strings, |s, l| check(run, s, l));
 }
 
